@@ -79,11 +79,14 @@ class LocalDirectoryContext(Context):
         log_path = self._log_path
         if not log_path.is_file():
             # NOTE: Create the file with its header line atomically: an interrupted
-            # creation must not leave a log without header behind
-            tmp_path = log_path.with_suffix('.tmp')
-            with open(tmp_path, 'w') as fh:
-                fh.write("path,time,severity,message\n")
-            tmp_path.replace(log_path)
+            # creation must not leave a log without header behind. The log lock
+            # serialises constructors racing for the same new context
+            with self._write_lock(log_path):
+                if not log_path.is_file():
+                    tmp_path = log_path.with_suffix('.tmp')
+                    with open(tmp_path, 'w') as fh:
+                        fh.write("path,time,severity,message\n")
+                    tmp_path.replace(log_path)
 
     def _store_common_options(self, common_options):
         if common_options is None:
